@@ -86,6 +86,30 @@ pub struct Universe {
 }
 
 impl Universe {
+    /// The same dictionary with the last two categories declared in the other order (ids
+    /// exchanged everywhere): a DIFFERENT char.def / unk.def text for the same behaviour.
+    /// Used as a neighbour instance built in the same thread (hidden-state interference).
+    pub fn swapped_categories(&self) -> Option<Universe> {
+        let n = self.dict.cats.len();
+        if n < 4 {
+            return None;
+        }
+        let (a, b) = (n - 2, n - 1);
+        let mut u = self.clone();
+        u.dict.cats.swap(a, b);
+        let sw = |k: usize| if k == a { b } else if k == b { a } else { k };
+        for r in u.dict.ranges.iter_mut() {
+            for k in r.2.iter_mut() {
+                *k = sw(*k);
+            }
+        }
+        for r in u.dict.unk.iter_mut() {
+            r.cat = sw(r.cat);
+        }
+        u.name.push_str("/swapped-categories");
+        Some(u)
+    }
+
     /// Builds the real dictionary (applying the mapping) and the matching reference.
     pub fn build(&self) -> Result<(vibrato::Dictionary, RefDict), String> {
         let d = self.dict.build_real()?;
